@@ -302,12 +302,17 @@ func (fv *FV) loadCell(e *Env, comp string, t types.Type, sortHint string, idx .
 				al = fv.entry.alloc
 			}
 			fv.assume(e, or(eq(v.T, tNull), sel(al, fv.rootOf(v.T))))
+		} else {
+			fv.specFact(and(le(intLit(0), v.Off), le(intLit(0), v.Len), le(v.Len, v.Cap)))
 		}
 		return v
 	}
 	v := fv.loadComp(e, comp, s, idx...)
 	if fv.spec == nil && t != nil {
 		fv.assume(e, rangeFact(v, t))
+	}
+	if fv.spec != nil && t != nil {
+		fv.specFact(rangeFact(v, t))
 	}
 	if fv.spec == nil && s == sRef {
 		// anything stored in the heap was allocated before; a component that is
